@@ -29,6 +29,8 @@ LIB = {
     "xpk/xsub/xme.py": "E1 = 'xpk.xsub.xme.E1'\n",
     "xpk/xutil.py": "U1 = 'xpk.xutil.U1'\n",
     "xpk/xsub/xutil.py": "U2 = 'xpk.xsub.xutil.U2'\n",
+    # a top-level module that shares its name with the sub-package's sibling module
+    "xutil.py": "U9 = 'xutil.U9'\n",
     "xmeta.py": "class Meta(type):\n    pass\n\n\nclass Base:\n    pass\n\n\nTAG = 'xmeta.TAG'\n\n\ndef deco(f):\n    return f\n",
 }
 # (statement, expression that uses what it imports, name(s) it binds) ; where: root / pkg (target inside xpk)
@@ -56,6 +58,7 @@ FORMS = [
     ("from ..xutil import U1", "U1", "sub"),
     ("from . import xme", "xme.E1", "sub"),
     ("from .. import xmc", "xmc.C1", "sub"),
+    ("from .xutil import *", "U2", "sub"),
     ("import xmeta", "xmeta.%s", "root"),
     ("from xmeta import Meta, Base, TAG, deco", "%s", "root"),
     # a package next to an aliased import of its sub-module; a second provider of a star-exported name;
@@ -143,7 +146,7 @@ class C07(Check):
     pid = "C07"
     level = "exploration"
     rule = ("cases = (target location in {project root, inside package xpk, inside sub-package xpk.xsub, a package's own __init__.py}, header in {none, docstring+comment}, block of <=2 (3) "
-            "import statements over 36 forms, usage of each in {unused, module level, inside a function, only in __all__; for two forms also class keyword (metaclass=), base class, default argument, decorator, target of an attribute assignment}); "
+            "import statements over 37 forms, usage of each in {unused, module level, inside a function, only in __all__; for two forms also class keyword (metaclass=), base class, default argument, decorator, target of an attribute assignment}); "
             "evaluations = one ImportOrganizer action per (case, action in 5, preference set in 5 (thorough) / default + split "
             "(quick)); oracle per performed action: modules compile; the target and a star-importing client print the same; a second "
             "application changes nothing; non-trivial = actions that changed the source; distinct by (source, action, prefs)")
